@@ -885,7 +885,12 @@ pub fn replay_c11(case: &J, rep: &mut Report) -> Result<(), String> {
 // ------------------------------------------------------------ C12
 
 fn utf8_alphabet(rng: &mut Rng) -> Vec<&'static str> {
-    let pool = ["a", "b", "é", "ß", "€", "語", "😀", "𝄞", "\u{80}", "\u{7ff}", "\u{800}", "\u{ffff}", "\u{10000}", " "];
+    // the first and last character of every UTF-8 length class, the extremes of
+    // every lead byte range (0xC2, 0xDF, 0xE0, 0xEF, 0xF0, 0xF4) included
+    let pool = [
+        "a", "b", "é", "ß", "€", "語", "😀", "𝄞", "\u{80}", "\u{7ff}", "\u{800}", "\u{ffff}", "\u{10000}", " ",
+        "\u{7f}", "\u{0}", "\u{fff}", "\u{1000}", "\u{d7ff}", "\u{e000}", "\u{3ffff}", "\u{40000}", "\u{fffff}", "\u{100000}", "\u{10fffd}", "\u{10ffff}",
+    ];
     let n = rng.range(3, 6);
     let mut v = vec![];
     while v.len() < n {
